@@ -22,6 +22,9 @@ pub enum Fault {
     /// valid secureChannelState "Wireserver"; 1: the same with "Disabled"; 2: version 1.0 with secureChannelEnabled but without
     /// secureChannelState; 3: neither field). Each names rules and modes of its own, so accepting it would show.
     InvalidDocKind(u8),
+    /// a refusal (any non-2xx code) whose body is a well-formed, VALID status document of its own (kind 0/1: version 1.0
+    /// disabled / enabled, 2/3: version 2.0 disabled / enabled; each names rule sets of its own): a failed request all the same
+    RefusedWithValidDoc(u16, u8),
     /// connection reset without an answer
     Reset,
     /// (attestation only) the host processes the request - it may latch the key - but the reply is lost
@@ -103,6 +106,9 @@ pub struct Step {
     pub attest_faults: Vec<Fault>,
     /// the host forgets the latched key (rotation): the next status names no key
     pub rotate: bool,
+    /// with `rotate`: instead of forgetting its key the host now names a latched key this guest never stored (somebody else
+    /// re-keyed the channel, or the guest's key directory was lost): the guest must obtain a key of its own again
+    pub rotate_foreign: bool,
     pub key_shape: Option<KeyShape>,
 }
 
@@ -139,6 +145,32 @@ fn fault_response(f: &Fault) -> ResponseSpec {
                 }
             }
             ResponseSpec::ok(serde_json::to_string(&d).unwrap().as_bytes()).with_header("Content-Type", "application/json; charset=utf-8")
+        }
+        Fault::RefusedWithValidDoc(code, k) => {
+            let rules = serde_json::json!({
+                "imds": {"defaultAccess": "deny", "mode": "enforce", "id": "refused-doc-imds-rules", "rules": {"privileges": [], "roles": [], "identities": [], "roleAssignments": []}},
+                "wireserver": {"defaultAccess": "allow", "mode": "audit", "id": "refused-doc-ws-rules", "rules": {"privileges": [], "roles": [], "identities": [], "roleAssignments": []}},
+            });
+            let mut d = serde_json::json!({"authorizationScheme": "Azure-HMAC-SHA256", "keyDeliveryMethod": "http", "keyGuid": null, "requiredClaimsHeaderPairs": ["isRoot"], "authorizationRules": rules});
+            match k % 4 {
+                0 => {
+                    d["version"] = "1.0".into();
+                    d["secureChannelState"] = "Disabled".into();
+                }
+                1 => {
+                    d["version"] = "1.0".into();
+                    d["secureChannelState"] = "WireServer".into();
+                }
+                2 => {
+                    d["version"] = "2.0".into();
+                    d["secureChannelEnabled"] = false.into();
+                }
+                _ => {
+                    d["version"] = "2.0".into();
+                    d["secureChannelEnabled"] = true.into();
+                }
+            }
+            ResponseSpec::status(*code, serde_json::to_string(&d).unwrap().as_bytes()).with_header("Content-Type", "application/json; charset=utf-8")
         }
         Fault::InvalidDoc => ResponseSpec::ok(br#"{"authorizationScheme":"Azure-HMAC-SHA256","keyDeliveryMethod":"http","keyGuid":null,"requiredClaimsHeaderPairs":["isRoot"],"secureChannelState":"bogus-state","version":"1.0"}"#).with_header("Content-Type", "application/json; charset=utf-8"),
         Fault::Reset | Fault::ResetAfterCommit => {
@@ -260,6 +292,11 @@ impl HostState {
                 self.attest_faults = step.attest_faults.into_iter().collect();
                 if step.rotate {
                     self.latched = None;
+                    if step.rotate_foreign {
+                        let (g, k) = self.new_key();
+                        self.issued.insert(g.clone(), k);
+                        self.latched = Some(g);
+                    }
                 }
                 if let Some(k) = step.key_shape {
                     self.key_shape = k;
